@@ -145,7 +145,7 @@ REGISTRY["C06"] = dict(
     technique="static analysis: who-may-read rule for the style flag (Options::is_compressed / Options.style) and for serializer entry points called with the user's Options, over the resolved call graph",
     claim=(
         "Style-flag confinement: outside serializer.rs/lib.rs no function reads the output style, passes a non-constant style to Value::to_css_string/Number::to_string, or serializes text for SassScript with the caller's Options; "
-        "the compressed comment-retention predicate is exactly `/*!`; compressed colour spellings (short hex only when red, green and blue are all doubled digits; names only when not longer) denote the same colour. Each function that does is a separate finding. NOT decided: that expanded and compressed outputs are equivalent CSS."
+        "the compressed comment-retention predicate is exactly `/*!`; compressed colour spellings (short hex only when red, green and blue are all doubled digits; names only when not longer) denote the same colour; (d) no number text is cut at a constant offset without a test of the prefix being dropped (compressed `0.x` -> `.x`). Each function that does is a separate finding. NOT decided: that expanded and compressed outputs are equivalent CSS."
     ),
     explanation="Clauses of DESIGN.md §3 C06 on MIR facts of the current tree; the evaluation-time readers of the style flag on the pinned tree are listed as known findings, each with an input whose SassScript-visible result differs between styles. NOT decided: CSS equivalence of the two outputs.",
     assumptions=TRUSTED,
